@@ -26,10 +26,10 @@ TInit == l = 1 /\ off = 0 /\ cyc = 0 /\ bad = "none" /\ TLCSet(1, 1)
 TReset == Is("Reset") /\ off' = 0 /\ cyc' = 0 /\ UNCHANGED bad
 \* tables are normalised before the Renorm event of the match finder is logged
 TTab == Is("NormTab") /\ Ev.off > 0 /\ off' = Ev.off /\ UNCHANGED cyc
-        /\ bad' = IF bad = "none" /\ (Ev.mina < 0 \/ Ev.mism > 0) THEN "entry_not_max0" ELSE bad
+        /\ bad' = (IF bad = "none" /\ (Ev.mina < 0 \/ Ev.mism > 0) THEN "entry_not_max0" ELSE bad)
 TSmp == Is("NormSmp") /\ Ev.off = off
-        /\ Ev.a = Norm(Ev.b, Ev.off)
-        /\ bad' = IF bad = "none" /\ Ev.a # NormMax0(Ev.b, Ev.off) THEN "entry_not_max0" ELSE bad
+        /\ (Ev.a = Norm(Ev.b, Ev.off) \/ Ev.a = NormMax0(Ev.b, Ev.off))    \* SIMD middle part: always max0
+        /\ bad' = (IF bad = "none" /\ Ev.a # NormMax0(Ev.b, Ev.off) THEN "entry_not_max0" ELSE bad)
         /\ UNCHANGED <<off, cyc>>
 TRenorm == Is("Renorm") /\ Ev.lz = MaxPosR /\ Ev.off = MaxPosR - Ev.cyc /\ Ev.lz2 = Ev.cyc /\ Ev.off = off
            /\ cyc' = Ev.cyc /\ UNCHANGED <<off, bad>>
